@@ -72,7 +72,7 @@ struct L07 : Listener {
         std::string outc = o.threw ? o.cls : "accepted";
         r.tags.insert(k + "/" + state + "/" + dev + "/" + outc);
         if (o.undocumented) { stop = true; return; }
-        if (!o.threw && (k == "fsub" || k == "fsubx") && state.rfind("--", 0) == 0) { stop = true; return; }   // frames on an object with nothing declared: undocumented territory
+        // (frames on an object with nothing declared are accepted; the quantifier of C07 names "undeclared, with data" as a state, so the history goes on)
         if (!o.threw) {
             if (!reasons.empty()) { r.fail("op " + std::to_string(i) + " (" + k + " " + dev + ", state " + state + ") was accepted although a documented precondition is violated: " + *reasons.begin()); stop = true; }
             return;
